@@ -2,12 +2,21 @@ import LlgoVerif.Util
 import LlgoVerif.Model.Path
 import LlgoVerif.Model.Extract
 import LlgoVerif.Model.ExtractLock
+import LlgoVerif.Model.Gzip
+import LlgoVerif.Model.Tar
+import LlgoVerif.Model.Zip
+import LlgoVerif.Spec.Extract
 /-! Line-protocol driver for C20. One request per line, one answer per line (H = hex of bytes, `-` = empty).
 
     clean H | dir H | join H H        -> ok H
     x CFG FMT ENTRIES                 -> ok|err LISTING         FMT = tgz | zip ; CFG = five 0/1 flags
                                          (tarAcceptRoot tarTrunc zipGuard zipAcceptRoot zipMkParents)
     lib CFG SUB FNAME ENTRIES         -> ok|err LISTING | nomodel
+    xb CFG tgz|zip FILEBYTES          -> ok|err LISTING | nomodel   the byte-level model: gzip members + tar framing / zip directory, then the loop
+    rd zip FILEBYTES                  -> K:NAME:DATA:FLAG,… eof | noreader | unsupported    r.File in central-directory order
+    rd tgz FILEBYTES                  -> ENTRIES eof|err|partial|unsupported|noreader      what archive/tar hands to the loop
+    gunzip FILEBYTES                  -> ok H eof|err | noreader    the stream the gzip layer delivers
+    spec FMT ENTRIES                  -> wf|nwf ok|clash LISTING    Spec/Extract.lean: well-formedness and the archived tree (paths relative to the destination)
     lock N FAIL SCHEDULE              -> ok maxExtractors=K dst=… | stuck@i   (SCHEDULE = comma separated process numbers)
     ENTRIES = "." | K:NAME:DATA:LINK,…   LISTING = "." | PATH=d PATH=f:DATA …  (paths relative to the case directory) -/
 open LlgoVerif LlgoVerif.Util LlgoVerif.Path LlgoVerif.Extract
@@ -33,6 +42,12 @@ def parseCfg (s : String) : Option Cfg :=
   match s.toList.map (· == '1') with
   | [a, b, c, d, e] => if s.toList.all (fun ch => ch == '0' || ch == '1') then some ⟨a, b, c, d, e⟩ else none
   | _ => none
+
+def showEntries (es : List Entry) : String :=
+  if es.isEmpty then "." else
+  ",".intercalate (es.map fun e =>
+    (match e.kind with | .dir => "d" | .reg => "f" | .sym => "s" | .other => "o") ++ ":" ++
+      hexStr e.name ++ ":" ++ hex e.data ++ ":" ++ hex e.link)
 
 def keyStr (k : Key) : Str := joinSlash k
 
@@ -103,6 +118,62 @@ def handle (line : String) : String :=
       | (fs, none) => "ok " ++ listing fs
       | (fs, some _) => "err " ++ listing fs
     | _, _, _ => "bad-op"
+  | ["xb", c, "tgz", h] =>
+    match parseCfg c, unhex h with
+    | some cfg, some file =>
+      match Tar.extractTarGzBytes cfg destStr initFS file with
+      | none => "nomodel"
+      | some (fs, none) => "ok " ++ listing fs
+      | some (fs, some _) => "err " ++ listing fs
+    | _, _ => "bad-op"
+  | ["xb", c, "zip", h] =>
+    match parseCfg c, unhex h with
+    | some cfg, some file =>
+      match Zip.extractZipBytes cfg destStr initFS file with
+      | none => "nomodel"
+      | some (fs, none) => "ok " ++ listing fs
+      | some (fs, some _) => "err " ++ listing fs
+    | _, _ => "bad-op"
+  | ["rd", "zip", h] =>
+    match unhex h with
+    | some file =>
+      match Zip.readZip file with
+      | .err _ => "noreader"
+      | .unsupported => "unsupported"
+      | .ok zs =>
+        (if zs.isEmpty then "." else ",".intercalate (zs.map fun z =>
+          (if z.isDir then "d" else if z.isSym then "s" else "f") ++ ":" ++ hexStr z.name ++ ":" ++
+          (match z.opened with
+           | .copied d false => hex d ++ ":-"
+           | .copied d true => hex d ++ ":65"       -- `e`: the copy ends in an error
+           | .openErr => "-:6f"                       -- `o`: Open fails
+           | .unsupported => "-:75"))) ++ " eof"
+    | none => "bad-op"
+  | ["rd", "tgz", h] =>
+    match unhex h with
+    | some file =>
+      match Gzip.gunzip true file with
+      | .error _ => "noreader"
+      | .ok s =>
+        let (es, e) := Tar.readTar s
+        let es := match e with | .partialFile x _ => es ++ [x] | _ => es
+        showEntries es ++ " " ++ (match e with
+          | .eof => "eof" | .err _ => "err" | .partialFile _ _ => "partial" | .unsupported => "unsupported")
+    | none => "bad-op"
+  | ["gunzip", h] =>
+    match unhex h with
+    | some file =>
+      match Gzip.gunzip true file with
+      | .error _ => "noreader"
+      | .ok s => "ok " ++ hex s.data ++ (if s.tail.isSome then " err" else " eof")
+    | none => "bad-op"
+  | ["spec", f, es] =>
+    let fmt := match f with | "tgz" => some Format.tgz | "zip" => some Format.zip | _ => none
+    match fmt, parseEntries es with
+    | some fmt, some ar =>
+      let (t, e) := specTree ar
+      (if wellFormed fmt ar then "wf " else "nwf ") ++ (if e.isSome then "clash " else "ok ") ++ listing t
+    | _, _ => "bad-op"
   | ["lib", c, sub, fname, es] =>
     match parseCfg c, unhexStr sub, unhexStr fname, parseEntries es with
     | some cfg, some sub, some fname, some ar =>
